@@ -1,186 +1,192 @@
 /-
-C02, joint model, one-in-port node kinds, part 3: the node's part of the ghost-log invariant, over the
-abstract tracer state: per request the derived packets in link order (`acts`) match its cells – a linked
-cell's packet is unlogged, a filled cell holds the reference answer of its packet.
+C02, joint model over the abstract tracer, part 3: what a writer still owes (`pendH`), updating one node's ghost
+(`updA`), key arithmetic, the programs of the classes (links, then writes).
 -/
 import Uniflow.Proofs.FlowH2
 
 namespace Uniflow.FlowH
 open Uniflow.Tracer Uniflow.Node Uniflow.Flow Uniflow.FlowInv Uniflow.FlowG Uniflow.ATracer
+open Uniflow.ATracer (getL_setOrDel getL_aset)
 
-def optl (l : List Pid) : Option (List Pid) := if l = [] then none else some l
+/-- a node kind with one in-port whose out-writers fit the pump (`maxW`) -/
+def KindOK : Kind → Prop
+  | .oneToOne => True
+  | .oneToMany k => k + 1 < maxW
+  | .manyToOne _ => False
 
-/-- the link targets still to come in the thread's program whose source is request `p` -/
-def remOps (p : Pid) : List Op → List Pid
-  | [] => []
-  | .link s t :: ops => if s = p then t :: remOps p ops else remOps p ops
-  | .write _ _ :: ops => remOps p ops
+/-- class T3: one-to-one and one-to-many nodes, arbitrary forward links -/
+structure GraphWF3 (kinds : List Kind) (links : List (Nat × List Tgt)) : Prop where
+  small : kinds.length ≤ 1000
+  kindsOK : ∀ k ∈ kinds, KindOK k
+  nodupT : ∀ key, ((getL links key).map rkeyOf).Nodup
+  tnode : ∀ key m port, Tgt.node m port ∈ getL links key → m < kinds.length ∧ port = 0
+  src : getL links srcKey ≠ []
+  keys : ∀ key, getL links key ≠ [] → key = srcKey ∨ ∃ n w, n < kinds.length ∧ w < maxW ∧ key = wkey n w
+  fwd : ∀ n w m port, n < kinds.length → w < maxW → Tgt.node m port ∈ getL links (wkey n w) → n < m
 
-def remFor (pc : PC) (p : Pid) : List Pid :=
-  match pc with
-  | .emit ops => remOps p ops
-  | _ => []
+/-- the packets writer `key` still owes answers for, oldest first -/
+def pendH (aa : Nat → A) (roots : List Pid) (nresp : Nat) (key : Nat) : List Pid :=
+  if key = srcKey then roots.drop nresp else getL (aa (key / 64)).wq (key % 64)
 
-def CellA (lg : Log) (n : Nat) (q : Pid) : Cell → Prop
-  | .linked q' => q' = q ∧ Unlogged lg q ∧ aget lg.owner q = some (qTag n)
-  | .written q' _ => q' = q
-  | .filled a => RA lg q a
+theorem getNode_map (kinds : List Kind) : ∀ n, getNode (kinds.map (fun k => Node.mk k)) n = (kinds[n]?).map (fun k => Node.mk k) := by
+  induction kinds with
+  | nil => intro n; simp [getNode]
+  | cons k ks ih =>
+    intro n
+    cases n with
+    | zero => simp [getNode]
+    | succ n => simp [getNode, ih n]
 
-def ReqA (lg : Log) (n : Nat) (pc : PC) (x : Req) : Prop :=
-  match x.st with
-  | .direct _ => False
-  | .cells cs => ∃ qs, All2 (CellA lg n) qs cs ∧ aget lg.acts x.p = optl (qs ++ remFor pc x.p) ∧
-      aget lg.echo x.p = none ∧ aget lg.sinkAns x.p = none ∧ aget lg.dels x.p = none ∧
-      (remFor pc x.p = [] ∨ allLinked cs = true) ∧
-      (∀ t ∈ remFor pc x.p, Unlogged lg t ∧ aget lg.owner t = some (qTag n))
+theorem pendH_ne_src (aa : Nat → A) (roots : List Pid) (n n' key : Nat) (h : key ≠ srcKey) :
+    pendH aa roots n key = pendH aa roots n' key := by
+  simp only [pendH, h, if_false]
 
-/-- a request that derived no packet and was answered with itself (`Write(nil, in)`), not yet flushed -/
-def ReqE (lg : Log) (pc : PC) (x : Req) : Prop :=
-  ∃ v, x.st = .cells [.filled (.pay v)] ∧ aget lg.echo x.p = some v ∧ remFor pc x.p = []
+theorem pendH_src (aa : Nat → A) (roots : List Pid) (nresp : Nat) : pendH aa roots nresp srcKey = roots.drop nresp := by
+  simp [pendH]
 
-def ReqB (lg : Log) (n : Nat) (pc : PC) (x : Req) : Prop := ReqA lg n pc x ∨ ReqE lg pc x
+def updA (aa : Nat → A) (n : Nat) (a : A) : Nat → A := fun m => if m = n then a else aa m
 
-theorem reqB_A (lg : Log) (n : Nat) (pc : PC) (x : Req) (h : ReqB lg n pc x)
-    (hne : ∀ v, x.st ≠ .cells [.filled (.pay v)]) : ReqA lg n pc x := by
-  rcases h with h | ⟨v, e, _⟩
-  · exact h
-  · exact absurd e (hne v)
+theorem remOps_sub (p : Pid) : ∀ (ops : List Op), ∀ t ∈ remOps p ops, t ∈ linkTargets ops
+  | [], t, h => by simp [remOps] at h
+  | .link s t' :: ops, t, h => by
+    simp only [remOps] at h
+    simp only [linkTargets]
+    by_cases e : s = t'
+    · simp only [e, if_true] at h ⊢
+      split at h <;> exact remOps_sub p ops t h
+    · simp only [e, if_false] at h ⊢
+      split at h
+      · simp only [List.mem_cons] at h ⊢
+        rcases h with h | h
+        · exact Or.inl h
+        · exact Or.inr (remOps_sub p ops t h)
+      · exact List.mem_cons_of_mem _ (remOps_sub p ops t h)
+  | .write _ _ :: ops, t, h => by
+    simp only [remOps] at h
+    simp only [linkTargets]; exact remOps_sub p ops t h
 
-/-- the out-writers the remaining program writes to exist in the pump -/
-def wOK : PC → Prop
-  | .emit ops => ∀ w q, Op.write (some w) q ∈ ops → w < maxW
-  | _ => True
+theorem remFor_sub (pc : PC) (p : Pid) : ∀ t ∈ remFor pc p, t ∈ pendIds pc := by
+  intro t ht
+  cases pc with
+  | emit ops => exact remOps_sub p ops t ht
+  | idle => simp [remFor] at ht
+  | action _ _ => simp [remFor] at ht
 
-/-- node `n` with forward thread `th` and abstract tracer state `a` agrees with the ghost log -/
-structure NL (lg : Log) (n : Nat) (th : Thread) (a : A) : Prop where
-  inb : ∀ p ∈ th.inbox, Unlogged lg p.id ∧ aget lg.owner p.id = some (n * 64)
-  own : ∀ x ∈ a.reqs, aget lg.owner x.p = some (n * 64)
-  req : ∀ x ∈ a.reqs, ReqB lg n th.pc x
-  nz : ∀ x ∈ a.reqs, x.st = .cells [] →
-    remFor th.pc x.p ≠ [] ∨ (∃ pk grp, th.pc = .action pk grp ∧ pk.id = x.p) ∨
-    ∃ q, th.pc = .emit [.write none q] ∧ q.id = x.p
-  wb : wOK th.pc
+theorem pendH_upd (aa : Nat → A) (n0 : Nat) (a' : A) (roots : List Pid) (nr key : Nat)
+    (hwq : ∀ w, getL a'.wq w = getL (aa n0).wq w) :
+    pendH (updA aa n0 a') roots nr key = pendH aa roots nr key := by
+  simp only [pendH]
+  split
+  · rfl
+  · simp only [updA]; split
+    · rename_i e; rw [hwq, e]
+    · rfl
 
-def linkedAll (a : A) : List Pid := a.reqs.flatMap (fun x => linkedIds (cellsOfSt x.st))
+theorem remOps_writes (p : Pid) : ∀ (wr : List (Wid × Pkt)), remOps p (wr.map (fun x => Op.write (some x.1) x.2)) = []
+  | [] => rfl
+  | x :: xs => by simp only [List.map_cons, remOps]; exact remOps_writes p xs
 
-/-- the ids whose log entries the node's invariant speaks about -/
-def nlIds (th : Thread) (a : A) : List Pid :=
-  th.inbox.map (·.id) ++ a.reqs.map (·.p) ++ linkedAll a ++ a.reqs.flatMap (fun x => remFor th.pc x.p)
+theorem alink_frame (a : A) (s t : Pid) : (alink a s t).reqs.map (·.p) = a.reqs.map (·.p) ∧ (alink a s t).wq = a.wq := by
+  simp only [alink]
+  split
+  · exact ⟨rfl, rfl⟩
+  · split
+    · exact ⟨updReq_map_p _ _ _, rfl⟩
+    · exact ⟨rfl, rfl⟩
 
-theorem cellA_ext (lg lg' : Log) (k : Pid) (hx : LogExt lg lg' k) (n : Nat) (q : Pid) (c : Cell)
-    (hk : ∀ q', c = .linked q' → q' ≠ k) (ho : ∀ q', c = .linked q' → aget lg'.owner q' = aget lg.owner q')
-    (h : CellA lg n q c) : CellA lg' n q c := by
-  cases c with
-  | linked q' =>
-    obtain ⟨e, hu, hw⟩ := h
-    subst e
-    exact ⟨rfl, unlogged_ext lg lg' k hx q' (hk q' rfl) hu, by rw [ho q' rfl]; exact hw⟩
-  | written q' w => exact h
-  | filled a => exact ra_ext lg lg' k hx q a h
+theorem src_ne_wkey (n w N : Nat) (hn : n < N) (hN : N ≤ 1000) : srcKey ≠ wkey n w ∨ 64 ≤ w := by
+  by_cases h : 64 ≤ w
+  · exact Or.inr h
+  · left; simp only [wkey, srcKey, srcNode]; omega
 
-theorem all2_cellA_ext (lg lg' : Log) (k : Pid) (hx : LogExt lg lg' k) (n : Nat) : ∀ (qs : List Pid) (cs : List Cell),
-    (∀ q' ∈ linkedIds cs, q' ≠ k ∧ aget lg'.owner q' = aget lg.owner q') →
-    All2 (CellA lg n) qs cs → All2 (CellA lg' n) qs cs
-  | [], [], _, _ => trivial
-  | q :: qs, c :: cs, hk, h => by
-    refine ⟨cellA_ext lg lg' k hx n q c ?_ ?_ h.1, all2_cellA_ext lg lg' k hx n qs cs ?_ h.2⟩
-    · intro q' e; subst e; exact (hk q' (by simp [linkedIds])).1
-    · intro q' e; subst e; exact (hk q' (by simp [linkedIds])).2
-    · intro q' hq'
-      apply hk q'
-      cases c <;> simp [linkedIds, hq']
-  | [], _ :: _, _, h => absurd h (by simp [All2])
-  | _ :: _, [], _, h => absurd h (by simp [All2])
+theorem key_eq_wkey (n w key' : Nat) (e2 : key' / 64 = n) (e3 : key' % 64 = w) : key' = wkey n w := by
+  simp only [wkey]; omega
 
-theorem all2_linked (lg : Log) (n : Nat) : ∀ (qs : List Pid) (cs : List Cell), All2 (CellA lg n) qs cs →
-    ∀ q ∈ linkedIds cs, Unlogged lg q ∧ aget lg.owner q = some (qTag n)
-  | [], [], _, q, hq => by simp [linkedIds] at hq
-  | q0 :: qs, c :: cs, h, q, hq => by
-    cases c with
-    | linked q' =>
-      simp only [linkedIds, List.mem_cons] at hq
-      rcases hq with e | hq
-      · obtain ⟨e1, u, o⟩ := h.1; rw [e, e1]; exact ⟨u, o⟩
-      · exact all2_linked lg n qs cs h.2 q hq
-    | written q' w => exact all2_linked lg n qs cs h.2 q (by simpa [linkedIds] using hq)
-    | filled b => exact all2_linked lg n qs cs h.2 q (by simpa [linkedIds] using hq)
-  | [], _ :: _, h, _, _ => absurd h (by simp [All2])
-  | _ :: _, [], h, _, _ => absurd h (by simp [All2])
+theorem wkey_div_mod (n w : Nat) (hw : w < 64) : wkey n w / 64 = n ∧ wkey n w % 64 = w := by
+  simp only [wkey]; omega
 
-theorem mem_linkedAll (a : A) (x : Req) (cs : List Cell) (hx : x ∈ a.reqs) (hst : x.st = .cells cs) (q : Pid)
-    (hq : q ∈ linkedIds cs) : q ∈ linkedAll a := by
-  simp only [linkedAll, List.mem_flatMap]
-  exact ⟨x, hx, by rw [hst]; exact hq⟩
+theorem pendH_wkey (aa : Nat → A) (roots : List Pid) (nr n w N : Nat) (hn : n < N) (hN : N ≤ 1000) (hw : w < maxW) :
+    pendH aa roots nr (wkey n w) = getL (aa n).wq w := by
+  have hw64 : w < 64 := Nat.lt_of_lt_of_le hw (by decide)
+  obtain ⟨d1, d2⟩ := wkey_div_mod n w hw64
+  have : wkey n w ≠ srcKey := by
+    rcases src_ne_wkey n w N hn hN with h | h
+    · exact fun e => h e.symm
+    · omega
+  simp only [pendH, this, if_false, d1, d2]
 
-/-- another part of the system extends the log at a key the node does not speak about -/
-theorem nl_ext (lg lg' : Log) (k : Pid) (hx : LogExt lg lg' k) (n : Nat) (th : Thread) (a : A)
-    (hk : k ∉ nlIds th a) (ho : ∀ id ∈ nlIds th a, aget lg'.owner id = aget lg.owner id)
-    (h : NL lg n th a) : NL lg' n th a := by
-  simp only [nlIds, List.mem_append, not_or] at hk
-  obtain ⟨⟨⟨hk1, hk2⟩, hk3⟩, hk4⟩ := hk
-  have ho1 : ∀ p ∈ th.inbox, aget lg'.owner p.id = aget lg.owner p.id :=
-    fun p hp => ho p.id (by simp only [nlIds, List.mem_append]; left; left; left; exact List.mem_map_of_mem hp)
-  have ho2 : ∀ x ∈ a.reqs, aget lg'.owner x.p = aget lg.owner x.p :=
-    fun x hx' => ho x.p (by simp only [nlIds, List.mem_append]; left; left; right; exact List.mem_map_of_mem hx')
-  refine ⟨?_, ?_, ?_, h.nz, h.wb⟩
-  · intro p hp
-    obtain ⟨u, o⟩ := h.inb p hp
-    exact ⟨unlogged_ext lg lg' k hx p.id (fun e => hk1 (e ▸ List.mem_map_of_mem hp)) u, by rw [ho1 p hp]; exact o⟩
-  · intro x hx'; rw [ho2 x hx']; exact h.own x hx'
-  · intro x hx'
-    have hne : x.p ≠ k := fun e => hk2 (e ▸ List.mem_map_of_mem hx')
-    obtain ⟨s1, s2, s3, s4⟩ := hx.2 x.p hne
-    rcases h.req x hx' with hr | ⟨v, e1, e2, e3⟩
-    rotate_left
-    · exact Or.inr ⟨v, e1, by rw [s3]; exact e2, e3⟩
-    left
-    simp only [ReqA] at hr ⊢
-    cases hst : x.st with
-    | direct w => rw [hst] at hr; exact hr
-    | cells cs =>
-      rw [hst] at hr
-      obtain ⟨qs, a1, a2, a3, a4, a5, a6, a7⟩ := hr
-      refine ⟨qs, ?_, by rw [s1]; exact a2, by rw [s3]; exact a3, by rw [s4]; exact a4, by rw [s2]; exact a5, a6, ?_⟩
-      · apply all2_cellA_ext lg lg' k hx n qs cs _ a1
-        intro q' hq'
-        have hm := mem_linkedAll a x cs hx' hst q' hq'
-        exact ⟨fun e => hk3 (e ▸ hm), ho q' (by simp only [nlIds, List.mem_append]; left; right; exact hm)⟩
-      · intro t ht
-        have hm : t ∈ a.reqs.flatMap (fun x => remFor th.pc x.p) := List.mem_flatMap.mpr ⟨x, hx', ht⟩
-        obtain ⟨u, o⟩ := a7 t ht
-        exact ⟨unlogged_ext lg lg' k hx t (fun e => hk4 (e ▸ hm)) u,
-          by rw [ho t (by simp only [nlIds, List.mem_append]; right; exact hm)]; exact o⟩
+theorem remOps_mkOps (p : Pid) (lk : List Pid) (wr : List (Wid × Pkt)) (hp : p ∉ lk) :
+    remOps p (mkOps p lk wr) = lk ∧ ∀ p', p' ≠ p → remOps p' (mkOps p lk wr) = [] := by
+  simp only [mkOps]
+  induction lk with
+  | nil =>
+    simp only [List.map_nil, List.nil_append]
+    exact ⟨remOps_writes p wr, fun p' _ => remOps_writes p' wr⟩
+  | cons t ts ih =>
+    simp only [List.mem_cons, not_or] at hp
+    have ih := ih hp.2
+    simp only [List.map_cons, List.cons_append, remOps, if_true, hp.1, if_false, ih.1]
+    refine ⟨trivial, fun p' hp' => ?_⟩
+    simp only [Ne.symm hp', if_false]; exact ih.2 p' hp'
 
-/-- every id the invariant speaks about carries the node's owner tag -/
-theorem nl_tag (lg : Log) (n : Nat) (th : Thread) (a : A) (h : NL lg n th a) :
-    ∀ id ∈ nlIds th a, aget lg.owner id = some (n * 64) ∨ aget lg.owner id = some (qTag n) := by
-  intro id hid
-  simp only [nlIds, List.mem_append, List.mem_map, List.mem_flatMap, linkedAll] at hid
-  rcases hid with ((⟨p, hp, e⟩ | ⟨x, hx, e⟩) | ⟨x, hx, hq⟩) | ⟨x, hx, ht⟩
-  · left; rw [← e]; exact (h.inb p hp).2
-  · left; rw [← e]; exact h.own x hx
-  · right
-    rcases h.req x hx with hr | ⟨v, e1, _, _⟩
-    rotate_left
-    · rw [e1] at hq; simp [cellsOfSt, linkedIds] at hq
-    simp only [ReqA] at hr
-    cases hst : x.st with
-    | direct w => rw [hst] at hr; exact hr.elim
-    | cells cs =>
-      rw [hst] at hr hq
-      obtain ⟨qs, a1, _⟩ := hr
-      simp only [cellsOfSt] at hq
-      exact (all2_linked lg n qs cs a1 id hq).2
-  · right
-    rcases h.req x hx with hr | ⟨v, _, _, e3⟩
-    rotate_left
-    · rw [e3] at ht; simp at ht
-    simp only [ReqA] at hr
-    cases hst : x.st with
-    | direct w => rw [hst] at hr; exact hr.elim
-    | cells cs =>
-      rw [hst] at hr
-      obtain ⟨qs, _, _, _, _, _, _, a7⟩ := hr
-      exact (a7 id ht).2
+theorem writeIds_mkOps (p : Pid) (lk : List Pid) (wr : List (Wid × Pkt)) :
+    writeIds (mkOps p lk wr) = wr.map (·.2.id) := by
+  simp only [mkOps]
+  induction lk with
+  | nil =>
+    simp only [List.map_nil, List.nil_append]
+    induction wr with
+    | nil => rfl
+    | cons x xs ih => simp [writeIds, ih]
+  | cons t ts ih => simpa [writeIds] using ih
+
+theorem wOK_mkOps (p : Pid) (lk : List Pid) (wr : List (Wid × Pkt)) (h : ∀ x ∈ wr, x.1 < maxW) :
+    wOK (.emit (mkOps p lk wr)) := by
+  intro w q hm
+  simp only [mkOps, List.mem_append, List.mem_map] at hm
+  rcases hm with ⟨t, _, e⟩ | ⟨x, hx, e⟩
+  · cases e
+  · simp only [Op.write.injEq, Option.some.injEq] at e; rw [← e.1]; exact h x hx
+
+theorem validOuts_lt (n : Nat) : ∀ (i : Nat) (qs : List (Option Pkt)), ∀ x ∈ validOuts n i qs, x.1 < n
+  | _, [], x, h => by simp [validOuts] at h
+  | i, none :: qs, x, h => validOuts_lt n (i + 1) qs x (by simpa [validOuts] using h)
+  | i, some q :: qs, x, h => by
+    simp only [validOuts] at h
+    split at h
+    · simp only [List.mem_cons] at h
+      rcases h with e | h
+      · rw [e]; assumption
+      · exact validOuts_lt n (i + 1) qs x h
+    · exact validOuts_lt n (i + 1) qs x h
+
+theorem foldl_owner_other (lk : List Pid) (τ : Nat) : ∀ (m : List (Pid × Nat)) (id : Pid), id ∉ lk →
+    aget (lk.foldl (fun m q => aset m q τ) m) id = aget m id := by
+  induction lk with
+  | nil => intro m id _; rfl
+  | cons q qs ih =>
+    intro m id hid
+    simp only [List.mem_cons, not_or] at hid
+    simp only [List.foldl_cons]
+    rw [ih _ id hid.2, aget_aset]; simp [hid.1]
+
+theorem foldl_owner_mem (lk : List Pid) (τ : Nat) : ∀ (m : List (Pid × Nat)) (id : Pid), id ∈ lk →
+    aget (lk.foldl (fun m q => aset m q τ) m) id = some τ := by
+  induction lk with
+  | nil => intro m id h; simp at h
+  | cons q qs ih =>
+    intro m id hid
+    simp only [List.foldl_cons]
+    by_cases hm : id ∈ qs
+    · exact ih _ id hm
+    · simp only [List.mem_cons] at hid
+      rcases hid with e | e
+      · rw [foldl_owner_other qs τ _ id hm, aget_aset]; simp [e]
+      · exact absurd e hm
+
+theorem updA_self (aa : Nat → A) (n : Nat) : updA aa n (aa n) = aa := by
+  funext m; simp only [updA]; split
+  · rename_i e; rw [e]
+  · rfl
 
 end Uniflow.FlowH
